@@ -18,6 +18,7 @@ import (
 	"fmt"
 	"github.com/echovault/sugardb/internal"
 	"github.com/echovault/sugardb/internal/clock"
+	"github.com/echovault/sugardb/internal/verifhook"
 	"github.com/tidwall/resp"
 	"io"
 	"log"
@@ -143,6 +144,7 @@ func (store *Store) Write(database int, command []byte) error {
 
 	store.mut.Lock()
 	defer store.mut.Unlock()
+	verifhook.Point("aof.write.begin")
 
 	// If the database parameter is different from the current database index,
 	// log the SELECT command before logging the incoming command.
@@ -154,16 +156,19 @@ func (store *Store) Write(database int, command []byte) error {
 			return fmt.Errorf("log select error: %+v", err)
 		}
 		store.currentDatabase = database
+		verifhook.Point("aof.write.after_select")
 	}
 
 	if _, err := store.rw.Write(command); err != nil {
 		return fmt.Errorf("log command error: %+v", err)
 	}
+	verifhook.Point("aof.write.after_cmd")
 
 	if strings.EqualFold(store.strategy, "always") {
 		if err := store.Sync(); err != nil {
 			return fmt.Errorf("log file sync error: %+v", err)
 		}
+		verifhook.Point("aof.write.after_sync")
 	}
 
 	return nil
@@ -171,7 +176,9 @@ func (store *Store) Write(database int, command []byte) error {
 
 func (store *Store) Sync() error {
 	if store.rw != nil {
-		return store.rw.Sync()
+		err := store.rw.Sync()
+		verifhook.Event("aof.sync", err)
+		return err
 	}
 	return nil
 }
@@ -228,9 +235,11 @@ func (store *Store) Truncate() error {
 	store.mut.Lock()
 	defer store.mut.Unlock()
 
+	verifhook.Point("aof.trunc.begin")
 	if err := store.rw.Truncate(0); err != nil {
 		return fmt.Errorf("truncate: truncate error: %+v", err)
 	}
+	verifhook.Point("aof.trunc.after_truncate")
 
 	// Seek to the beginning of the file after truncating.
 	if _, err := store.rw.Seek(0, 0); err != nil {
@@ -244,10 +253,12 @@ func (store *Store) Truncate() error {
 	if err != nil {
 		return fmt.Errorf("truncate: log select error: %+v", err)
 	}
+	verifhook.Point("aof.trunc.after_select")
 	// Immediately sync the file.
 	if err = store.rw.Sync(); err != nil {
 		return fmt.Errorf("truncate: sync error: %+v", err)
 	}
+	verifhook.Point("aof.trunc.after_sync")
 
 	return nil
 }
